@@ -605,3 +605,111 @@ def illumina_dataset(seed, n_loci=3, reads_per_locus=10):
             sh.read_from_exons("s%04d" % sid, "chr1", [(a - la, a - 1), (b + 1, b + lb)])
             sid += 1
     return ds, sh, truth, {"chr1": short}
+
+
+# ------------------------------------------------------------------------------------------------
+# IlluminaExonCorrector (Model/Illumina.lean): reads x ORDERED short-read junction lists around the thresholds of the
+# two rules (4 bp; 25 bp / 50 bp), tiny terminal and internal exons, ties of both scores
+
+ILL_SIDE = [0, 0, 0, 1, -1, 3, -3, 4, -4, 5, 24, -24, 25, -25, 26, -26, 30, -30]
+ILL_MID = [1, 2, 3, 10, 30, 48, 49, 50, 51, 52, 60]
+
+
+def illumina_exons(rng):
+    """block list of a long read: mostly gapped, with tiny (1-4 bp) terminal / internal exons and short introns;
+    sometimes two adjacent blocks (outside the domain of the identity clause, still compared)"""
+    n = rng.randint(2, 6)
+    p = rng.randint(1, 40) if rng.random() < 0.3 else rng.randint(100, 5000)
+    ex = []
+    gapped = True
+    for k in range(n):
+        r = rng.random()
+        if r < 0.3:
+            ln = rng.randint(1, 5)
+        elif r < 0.5:
+            ln = rng.randint(6, 30)
+        else:
+            ln = rng.randint(31, 200)
+        ex.append((p, p + ln - 1))
+        r = rng.random()
+        if r < 0.04:
+            g = 0
+            gapped = False
+        elif r < 0.3:
+            g = rng.randint(1, 12)
+        elif r < 0.6:
+            g = rng.randint(13, 80)
+        else:
+            g = rng.randint(81, 600)
+        p += ln + g
+    return ex, gapped
+
+
+def illumina_case2(rng):
+    """-> {"exons", "short" (list, enumeration order), "gapped", "wf_short"}"""
+    ex, gapped = illumina_exons(rng)
+    intr = introns_of(ex)
+    short = []
+    for (a, b) in intr:
+        r = rng.random()
+        if r < 0.12:
+            short.append((a, b))
+        elif r < 0.34:
+            short.append(rng.choice([(a, b + 4), (a - 4, b), (a, b + 4), (a - 4, b), (a, b + 3), (a, b + 5), (a - 5, b),
+                                     (a - 3, b), (a + 4, b), (a, b - 4), (a - 4, b + 4)]))
+            if rng.random() < 0.3:
+                short.append(rng.choice([(a, b + 4), (a - 4, b), (a, b), (a + 1, b - 1)]))     # ties / closer competitors
+        elif r < 0.72:
+            # candidates of the skipped-exon rule: left = (a + dl, m1), right = (m2, b + dr)
+            for _ in range(rng.choice([1, 1, 1, 2])):
+                dl, dr = rng.choice(ILL_SIDE), rng.choice(ILL_SIDE)
+                gap = rng.choice(ILL_MID)
+                lo, hi = a + dl, b + dr
+                if hi - lo < 3:
+                    continue
+                m1 = rng.randint(lo, max(lo, hi - 2))
+                m2 = m1 + gap
+                if rng.random() < 0.8:
+                    m2 = min(m2, hi)
+                short.append((lo, m1))
+                short.append((m2, hi))
+            if rng.random() < 0.25:
+                short.append(rng.choice([(a, b + 4), (a - 4, b), (a, b)]))
+        elif r < 0.85:
+            short.append((a + rng.randint(-30, 30), b + rng.randint(-30, 30)))
+        elif r < 0.9 and len(intr) > 1:
+            (c, d) = rng.choice(intr)
+            short.append((min(a, c), max(b, d)))        # spans several read introns
+    for _ in range(rng.choice([0, 0, 1, 2, 3])):
+        a = rng.randint(max(1, ex[0][0] - 40), ex[-1][1] + 40)
+        short.append((a, a + rng.randint(0, 300)))
+    wf = True
+    if rng.random() < 0.03 and intr:
+        a, b = rng.choice(intr)
+        m = rng.randint(a, b)
+        short.append((m + rng.randint(1, 3), m))      # malformed junction (start > end) that still overlaps
+        wf = False
+    seen = set()
+    out = []
+    for s in short:
+        if s not in seen:
+            seen.add(s)
+            out.append(s)
+    rng.shuffle(out)
+    return {"exons": [list(e) for e in ex], "short": [list(s) for s in out], "ordered": True, "gapped": gapped,
+            "wf_short": wf and all(s[0] <= s[1] for s in out)}
+
+
+def illumina_critical_universe():
+    """two read layouts with the junction end points that decide the rules (4 bp, 25 bp, 50 bp, the read ends);
+    -> [(exons, [junction, ...])]; the harness enumerates ordered pairs of junctions"""
+    res = []
+    # read intron 100-200, long terminal exons
+    lefts = [74, 75, 76, 96, 99, 100, 101, 104, 124, 125, 126, 150, 179, 180, 181]
+    rights = [130, 174, 175, 176, 196, 199, 200, 201, 204, 224, 225, 226]
+    res.append(([(50, 99), (201, 260)], [(a, b) for a in lefts for b in rights if a <= b]))
+    # terminal exons shorter than the shifts: read 90-99, 201-206
+    lefts = [75, 86, 89, 90, 91, 96, 100, 125, 150, 180]
+    rights = [130, 175, 196, 200, 204, 205, 206, 207, 225]
+    res.append(([(90, 99), (201, 206)], [(a, b) for a in lefts for b in rights if a <= b]))
+    return res
